@@ -8,7 +8,7 @@ SPEC = {
     "assumptions": ["reference receiver models EIA-608 XDS framing as described in DESIGN.md C09", "two unfinished packets never share one (class,type) slot in generated streams"],
     "jobs": [
         {"name": "asan", "harness": "c09_xds", "srcs": ["harness/c09_xds.c"], "flavour": "asan",
-         "cases": {"quick": 64000, "thorough": 4000000}, "budget": 20},
+         "cases": {"quick": 320000, "thorough": 4000000}, "budget": 20},
     ],
     "min_distinct": 10,
 }
